@@ -41,6 +41,8 @@ func reexec06(c *core.Ctx) {
 	root := h.DB.Session(&gorm.Session{})
 	var seeds []uint64
 	handJoin := r.Intn(3) == 0
+	// association joins, one of them along a nested path (two joins for one Joins call)
+	assocJoin := []string{"", "", "Parent", "Parent.Parent"}[r.Intn(4)]
 	for n := r.Range(0, 4); n > 0; n-- {
 		s := (r.U64() &^ 31) | uint64(r.Intn(28))
 		if s%32 == 25 {
@@ -57,6 +59,10 @@ func reexec06(c *core.Ctx) {
 				ON: clause.Where{Exprs: []clause.Expression{clause.Expr{SQL: "o1.tid = tags.id AND o1.lvl >= ?", Vars: []interface{}{1}}}}}}}
 			db = db.Clauses(from).Joins("LEFT JOIN aux06 o2 ON o2.tid = tags.id")
 			descs = append(descs, "Clauses(From{INNER JOIN aux06 o1 ON o1.tid = tags.id AND o1.lvl >= 1})", `Joins("LEFT JOIN aux06 o2 ON o2.tid = tags.id")`)
+		}
+		if assocJoin != "" {
+			db = db.Joins(assocJoin)
+			descs = append(descs, fmt.Sprintf("Joins(%q)", assocJoin))
 		}
 		for _, s := range seeds {
 			var d string
@@ -111,6 +117,6 @@ func reexec06(c *core.Ctx) {
 	if len(problems) > 0 {
 		c.Violation("reexecution-differs", map[string]interface{}{"chain": desc + ".Find", "problems": problems})
 	} else if !strings.HasPrefix(t1, "(no statement)") {
-		c.Shape("reexec", handJoin, len(seeds), shapeOfSQL(strings.SplitN(t1, " :: ", 2)[0]))
+		c.Shape("reexec", handJoin, assocJoin, len(seeds), shapeOfSQL(strings.SplitN(t1, " :: ", 2)[0]))
 	}
 }
